@@ -16,7 +16,7 @@ pub fn prop() -> Prop {
     Prop {
         id: "C03",
         level: "exploration",
-        rule: "proptest tapes decoding to a history: a parent (draw_iter-only or native-fill recording target) whose bounding box has its top-left in [-3,3]^2 and size 0..=12 (one case in five zero-sized), an adapter stack of depth 0..=3 from {clipped(r), cropped(r), translated(p), color_converted (Rgb565 -> Rgb888, and the identity conversion)} with rectangles of size 0..=9 anywhere in [-6,18]^2, then 1..=6 operations from {draw_iter with 0..=12 arbitrary unordered, possibly repeated points; fill_contiguous(area, stream) with a full, short or over-long stream; fill_solid; clear}, every operation with its own colours. Oracle: a reference model written from the DrawTargetExt documentation (per layer: coordinate shift, clip rectangle, reported bounding box, colour map; fill_contiguous = row-major zip of the area's points with the stream; clear of a clipped/cropped target fills its bounding box, clear of a translated/converted target clears its parent); after each operation the parent's pixel map must equal the model's (so nothing outside clip area intersected with the parent box ever arrives), and every layer's bounding_box() must equal the model's. Depth 0 checks the trait defaults directly. Non-trivial: an operation's area is cut by a clip edge (partly in, partly out) or its stream is short, and at least one pixel reaches the parent.",
+        rule: "proptest tapes decoding to a history: a parent (draw_iter-only or native-fill recording target) whose bounding box has its top-left in [-3,3]^2 and size 0..=12 (one case in five zero-sized), an adapter stack of depth 0..=3 from {clipped(r), cropped(r), translated(p), color_converted (Rgb565 -> Rgb888, and the identity conversion)} with rectangles of size 0..=9 anywhere in [-6,18]^2, then 1..=6 operations from {draw_iter with 0..=12 arbitrary unordered, possibly repeated points; fill_contiguous(area, stream) with a full, short or over-long stream; fill_solid; clear}, every operation with its own colours; one history in eight runs on a long strip instead (a side of 250..=320, the other 1..=3) with layer and operation areas of that scale. Oracle: a reference model written from the DrawTargetExt documentation (per layer: coordinate shift, clip rectangle, reported bounding box, colour map; fill_contiguous = row-major zip of the area's points with the stream; clear of a clipped/cropped target fills its bounding box, clear of a translated/converted target clears its parent); after each operation the parent's pixel map must equal the model's (so nothing outside clip area intersected with the parent box ever arrives), and every layer's bounding_box() must equal the model's. Depth 0 checks the trait defaults directly. Non-trivial: an operation's area is cut by a clip edge (partly in, partly out) or its stream is short, and at least one pixel reaches the parent.",
         assumptions: vec![
             "the origin of a cropped target whose area does not intersect the parent box is not documented; the model takes it from Rectangle::intersection (pinned by C16) and only compares zero-sizedness of such bounding boxes",
             "colour conversion is judged by the From impl itself (the property says 'through Into')",
@@ -268,12 +268,14 @@ impl Model {
 // ---- generation -------------------------------------------------------------------------------
 
 /// A rectangle that usually straddles an edge of `around` (or lies anywhere, one time in four).
-fn rect_near(d: &mut Dec, around: &Rectangle, max: u32) -> Rectangle {
+/// `lim` bounds the part of `around` that is used (14 normally; 400 for the long-strip histories).
+fn rect_near(d: &mut Dec, around: &Rectangle, max: u32, lim: u32) -> Rectangle {
     if d.ratio(1, 4) {
         return Rectangle::new(Point::new(d.i(-6, 18), d.i(-6, 18)), Size::new(d.u(0, max), d.u(0, max)));
     }
-    let (w, h) = (around.size.width.min(14) as i32, around.size.height.min(14) as i32);
+    let (w, h) = (around.size.width.min(lim) as i32, around.size.height.min(lim) as i32);
     let tl = around.top_left + Point::new(d.i(-3, w + 1), d.i(-3, h + 1));
+    let max = if lim > 14 { lim } else { max };
     Rectangle::new(tl, Size::new(d.u(0, max.min(w as u32 + 4)), d.u(0, max.min(h as u32 + 4))))
 }
 
@@ -283,9 +285,13 @@ pub fn gen_layer(d: &mut Dec) -> Layer {
 
 /// A layer whose rectangle is chosen relative to the bounding box of the target below.
 pub fn gen_layer_near(d: &mut Dec, below: &Rectangle) -> Layer {
+    gen_layer_lim(d, below, 14)
+}
+
+pub fn gen_layer_lim(d: &mut Dec, below: &Rectangle, lim: u32) -> Layer {
     match d.u(0, 6) {
-        0 | 1 => Layer::Clipped(rect_near(d, below, 9)),
-        2 | 3 => Layer::Cropped(rect_near(d, below, 9)),
+        0 | 1 => Layer::Clipped(rect_near(d, below, 9, lim)),
+        2 | 3 => Layer::Cropped(rect_near(d, below, 9, lim)),
         4 | 5 => Layer::Translated(Point::new(d.i(-6, 6), d.i(-6, 6))),
         _ => Layer::Converted,
     }
@@ -305,11 +311,15 @@ pub fn gen_op(d: &mut Dec, color_base: u32) -> Op {
 
 /// An operation whose area / points are chosen relative to the bounding box of the stack's top.
 pub fn gen_op_near(d: &mut Dec, color_base: u32, top: &Rectangle) -> Op {
+    gen_op_lim(d, color_base, top, 14)
+}
+
+pub fn gen_op_lim(d: &mut Dec, color_base: u32, top: &Rectangle, lim: u32) -> Op {
     match d.u(0, 9) {
         0..=2 => {
             let n = d.u(0, 12);
             let mut v: Vec<(Point, u32)> = vec![];
-            let (w, h) = (top.size.width.min(14) as i32, top.size.height.min(14) as i32);
+            let (w, h) = (top.size.width.min(lim) as i32, top.size.height.min(lim) as i32);
             for k in 0..n {
                 let p = if k > 0 && d.ratio(1, 5) {
                     v[d.idx(v.len())].0
@@ -323,7 +333,7 @@ pub fn gen_op_near(d: &mut Dec, color_base: u32, top: &Rectangle) -> Op {
             Op::DrawIter(v)
         }
         3..=6 => {
-            let a = rect_near(d, top, 7);
+            let a = rect_near(d, top, 7, lim);
             let full = (a.size.width * a.size.height) as usize;
             let len = match d.u(0, 3) {
                 0 | 1 => full,
@@ -332,28 +342,40 @@ pub fn gen_op_near(d: &mut Dec, color_base: u32, top: &Rectangle) -> Op {
             };
             Op::FillContiguous(a, (0..len as u32).map(|k| color_base + k).collect())
         }
-        7 | 8 => Op::FillSolid(rect_near(d, top, 7), color_base),
+        7 | 8 => Op::FillSolid(rect_near(d, top, 7, lim), color_base),
         _ => Op::Clear(color_base),
     }
 }
 
 fn history(d: &mut Dec, cx: &mut Cx, native: bool) -> Res {
     let parent_box = gen_parent_box(d);
+    // auxiliary words 5..=7: one history in eight runs on a long strip (a side of 250..=320, the other
+    // 1..=3) with layer and operation areas of that scale: sizes and offsets beyond 255
+    let big = d.aux_u(5, 0, 7) == 7;
+    let (parent_box, lim) = if big {
+        let long = d.aux_u(6, 250, 320);
+        let short = d.aux_u(7, 1, 3);
+        let size = if d.aux_u(7, 0, 1) == 0 { Size::new(long, short) } else { Size::new(short, long) };
+        (Rectangle::new(parent_box.top_left, size), 400)
+    } else {
+        (parent_box, 14)
+    };
     let depth = d.u(0, 3);
     let mut stack: Vec<Layer> = vec![];
     let mut top_box = parent_box;
     for _ in 0..depth {
-        let l = gen_layer_near(d, &top_box);
+        let l = gen_layer_lim(d, &top_box, lim);
         stack.push(l);
         top_box = Model::new(parent_box, &stack).layers.last().map(|l| l.bbox_exact).unwrap_or(parent_box);
     }
     let nops = d.u(1, 6);
-    let ops: Vec<Op> = (0..nops).map(|k| gen_op_near(d, 1 + k * 80, &top_box)).collect();
+    let ops: Vec<Op> = (0..nops).map(|k| gen_op_lim(d, 1 + k * if big { 3000 } else { 80 }, &top_box, lim)).collect();
     cx.describe(|| format!("parent {} box {:?}; stack (innermost first) {:?}; operations {:?}", if native { "native-fill" } else { "draw_iter-only" }, parent_box, stack, ops));
-    cx.class(match depth {
-        0 => "depth0",
-        1 => "depth1",
-        2 => "depth2",
+    cx.class(match (big, depth) {
+        (true, _) => "long_strip",
+        (_, 0) => "depth0",
+        (_, 1) => "depth1",
+        (_, 2) => "depth2",
         _ => "depth3",
     });
     let model = Model::new(parent_box, &stack);
